@@ -144,6 +144,20 @@ def main():
     if "--files" in args:
         files = args[args.index("--files") + 1].split(",")
     all_sites = sites2(files) if "--ops2" in args else sites(files)
+    if "--covered" in args:
+        # keep only sites on lines the checks' workload executes (coverage profile of the quick tier):
+        # a mutant on a line nothing runs cannot be observed by any check and is known from the
+        # coverage reading already
+        prof = args[args.index("--covered") + 1]
+        covered = set()
+        for l in open(prof):
+            m = re.match(r".*/([a-z0-9_]+\.go):(\d+)\.\d+,(\d+)\.\d+ \d+ (\d+)$", l.strip())
+            if m and int(m.group(4)) > 0:
+                for ln in range(int(m.group(2)), int(m.group(3)) + 1):
+                    covered.add((m.group(1), ln))
+        before = len(all_sites)
+        all_sites = [x for x in all_sites if (x[0], x[1] + 1) in covered]
+        print("coverage filter: %d of %d sites are on executed lines" % (len(all_sites), before), flush=True)
     done = set()
     if "--resume" in args and os.path.exists(out_path):
         for l in open(out_path):
